@@ -12,6 +12,15 @@ Op lines (stateful; harness = real alpaqa code, driver = Lean model):
   rt <sep> r c bits… toks…               print_csv then read every row back with both readers
   rtf / rtl (harness only)               float / long double round trip
   rowT <d|f|l|i> n sep text calls (harness only)   outcome signature of consecutive row calls per scalar type
+  rowX <d|f|l> n sep text (harness only)  one row call of that scalar type, values as raw bit patterns
+  fts <d|f|l> precision bits (harness only)        float_to_str<F>(value[, precision])
+
+All values cross the protocol as raw bit patterns (NaN sign and payload included).  What the property can
+promise for NaN: the printers write `nan` / `-nan`, so the sign survives print -> read and nothing else does
+(`canon_bits`); every other pattern, the sign of zero included, must come back bit-identically.
+The grammar of a valid number (`STRICT`) is C's strtod decimal subject sequence with one optional sign, the
+values come from exact integer rounding (`round_decimal`) in the format of the scalar type — neither shares
+anything with the reader.
 
 Monitor, malformed rows: every listed class must be rejected (never numbers), and the rejected call must
 leave the stream at the start of the next line with failbit clear ("no partial consumption that corrupts
@@ -62,15 +71,54 @@ def tok_of_bits(b):
 
 
 def hbits(b):
-    x = bits2f(b)
-    return 'nan' if x != x else '%016x' % b
+    """Raw bit pattern: NaNs cross the protocol with their sign and payload."""
+    return '%016x' % b
+
+
+QNAN = 0x7ff8000000000000
+
+
+def is_nan_bits(b):
+    return (b >> 52) & 0x7ff == 0x7ff and b & ((1 << 52) - 1) != 0
+
+
+def canon_bits(b):
+    """What the property can promise for the value with bit pattern b after print -> read: every non-NaN
+    pattern identically (the sign of zero included); for a NaN the printers write `nan` / `-nan`, i.e. the
+    sign and nothing else, so the sign is kept and the result is the quiet NaN without payload."""
+    return (b & (1 << 63)) | QNAN if is_nan_bits(b) else b
+
+
+def value_class(b):
+    s = '-' if b >> 63 else '+'
+    e, m = (b >> 52) & 0x7ff, b & ((1 << 52) - 1)
+    if e == 0x7ff:
+        if m == 0:
+            return s + 'inf'
+        if m == 1 << 51:
+            return s + 'qnan'
+        return s + ('qnan-payload' if m >> 51 else 'snan')
+    if e == 0:
+        return s + ('0' if m == 0 else 'subnormal')
+    return s + 'normal'
+
+
+# classes of the property's quantifier ("normal, subnormal, +/-0, +/-inf, NaN") that every run must have
+# sent through print -> read (checked at the end of the run: a class never exercised is a broken tie)
+REQUIRED_CLASSES = [s + c for s in '+-' for c in ('0', 'subnormal', 'normal', 'inf', 'qnan', 'qnan-payload', 'snan')]
+COVER = {'rt_classes': {}, 'pcsv': {}, 'exempt': {}}
+
+
+def count(group, key, n=1):
+    COVER[group][key] = COVER[group].get(key, 0) + n
 
 
 def rnd_bits(rng):
     k = rng.random()
     if k < 0.08:
         return rng.choice([0, 1 << 63, 0x7ff0000000000000, 0xfff0000000000000, 0x7ff8000000000000,
-                           0xfff8000000000001, 0x7ff0000000000001, 1, 0x8000000000000001,
+                           0xfff8000000000000, 0xfff8000000000001, 0x7ff8000000000123, 0x7ff0000000000001,
+                           0xfff0000000000001, 0x7ff4000000000000, 0xffffffffffffffff, 1, 0x8000000000000001,
                            0x000fffffffffffff, 0x0010000000000000, 0x7fefffffffffffff,
                            0xffefffffffffffff, 0x3ff0000000000000])
     if k < 0.2:
@@ -82,26 +130,104 @@ def rnd_bits(rng):
 
 # ---------------------------------------------------------------- the number grammar (spec side)
 
-NUMRE = re.compile(r'\+?-?(?:inf(?:inity)?|nan(?:\([0-9a-z_]*\))?|(?:[0-9]+\.?[0-9]*|\.[0-9]+)(?:e[+-]?[0-9]+)?)',
-                   re.I)
+# Independent of the reader: the decimal floating-point subject sequence of C's strtod (C17 7.22.1.3: a
+# nonempty digit sequence optionally containing a radix character, an optional exponent part; INF / INFINITY /
+# NAN / NAN(n-char-sequence), case-insensitive) with ONE optional sign (the printers write '+' or '-'; the
+# library's unit tests read `+2.0`).  The hexadecimal form is excluded (from_chars' general format has no 0x).
+STRICT = re.compile(r'([+-]?)(?:(inf(?:inity)?)|(nan)(?:\(([0-9A-Za-z_]*)\))?|([0-9]+\.?[0-9]*|\.[0-9]+)(?:e([+-]?[0-9]+))?)',
+                    re.I)
+# what the reader additionally lets through (open finding): a '+' in front of an otherwise valid negative token
+PLUSMINUS = 'csv-plus-minus-sign-accepted'
+
+#        precision, emin, emax
+FORMATS = {'d': (53, -1022, 1023), 'f': (24, -126, 127), 'l': (64, -16382, 16383)}
 
 
-def tok_value(t):
-    """(bits-string, in_range) of a grammatical token, by exact decimal → binary64 rounding
-    (CPython's float() is correctly rounded)."""
-    s = t[1:] if t.startswith('+') else t
-    neg = s.startswith('-')
-    body = s[1:] if neg else s
-    low = body.lower()
-    if low.startswith('nan'):
-        return 'nan', True
-    if low.startswith('inf'):
-        return f2h(-math.inf if neg else math.inf), True
-    v = float(body)
-    mant = re.match(r'[0-9.]*', body).group(0)
-    nonzero = any(ch in '123456789' for ch in mant)
-    in_range = not math.isinf(v) and not (v == 0.0 and nonzero)
-    return f2h(-v if neg else v), in_range
+def encode(fmt, neg, kind, e2=0, q=0):
+    """Bit-pattern string of a value of format fmt: kind in zero / inf / nan / finite (q·2^(e2-p+1), q < 2^p;
+    q < 2^(p-1) only with e2 = emin: subnormal)."""
+    p, emin, emax = FORMATS[fmt]
+    ebits = {'d': 11, 'f': 8, 'l': 15}[fmt]
+    emask = (1 << ebits) - 1
+    if kind == 'zero':
+        be, m = 0, 0
+    elif kind == 'inf':
+        be, m = emask, (1 << 63 if fmt == 'l' else 0)
+    elif kind == 'nan':
+        be, m = emask, (3 << 62 if fmt == 'l' else 1 << (p - 2))
+    else:
+        normal = q >> (p - 1)
+        be = e2 + emax if normal else 0
+        m = q if fmt == 'l' else q & ((1 << (p - 1)) - 1)
+    if fmt == 'l':
+        return '%04x%016x' % ((int(neg) << ebits) | be, m)
+    width = 1 + ebits + p - 1
+    return '%0*x' % (width // 4, (int(neg) << (width - 1)) | (be << (p - 1)) | m)
+
+
+def round_decimal(neg, digits, exp10, fmt):
+    """Correctly rounded (nearest, ties to even) value of ±digits·10^exp10 in format fmt, by exact integer
+    arithmetic.  Returns (bits, in_range, tiny) — tiny: the exact value is below the smallest normal number
+    (the result is subnormal, or rounds up to the smallest normal)."""
+    p, emin, emax = FORMATS[fmt]
+    m = int(digits) if digits else 0
+    if m == 0:
+        return encode(fmt, neg, 'zero'), True, False
+    nd = len(str(m))
+    if nd + exp10 > 5200:
+        return encode(fmt, neg, 'inf'), False, False
+    if nd + exp10 < -5200:
+        return encode(fmt, neg, 'zero'), False, False
+    num, den = (m * 10 ** exp10, 1) if exp10 >= 0 else (m, 10 ** (-exp10))
+    e2 = num.bit_length() - den.bit_length()
+    if (num << max(0, -e2)) < (den << max(0, e2)):      # num / den < 2^e2
+        e2 -= 1
+    tiny = e2 < emin                                     # exact value below the normal range
+    e2 = max(e2, emin)
+    sh = e2 - p + 1                                      # value = q · 2^sh
+    n2, d2 = (num, den << sh) if sh >= 0 else (num << -sh, den)
+    q, r = divmod(n2, d2)
+    if 2 * r > d2 or (2 * r == d2 and q & 1):
+        q += 1
+    if q == 1 << p:
+        q >>= 1
+        e2 += 1
+    if e2 > emax:
+        return encode(fmt, neg, 'inf'), False, False
+    if q == 0:
+        return encode(fmt, neg, 'zero'), False, False
+    return encode(fmt, neg, 'finite', e2, q), True, tiny
+
+
+def tok_value(t, fmt='d'):
+    """(expected, in_range, subnormal) of a token of the strict grammar; expected is a bit-pattern string, or
+    ('nan', neg) for `nan(n-char-sequence)` with a non-empty sequence (any NaN of that sign: the meaning of the
+    sequence is implementation-defined)."""
+    m = STRICT.fullmatch(t)
+    sign, inf, nan, seq, mant, ex = m.groups()
+    neg = sign == '-'
+    if inf:
+        return encode(fmt, neg, 'inf'), True, False
+    if nan:
+        return (('nan', neg) if seq else encode(fmt, neg, 'nan')), True, False
+    ip, _, fp = mant.partition('.')
+    return round_decimal(neg, ip + fp, int(ex or 0) - len(fp), fmt)
+
+
+def is_nan_str(b, fmt):
+    v = int(b, 16)
+    if fmt == 'l':
+        return (v >> 64) & 0x7fff == 0x7fff and v & ((1 << 63) - 1) != 0
+    p = FORMATS[fmt][0]
+    eb = {'d': 11, 'f': 8}[fmt]
+    return (v >> (p - 1)) & ((1 << eb) - 1) == (1 << eb) - 1 and v & ((1 << (p - 1)) - 1) != 0
+
+
+def value_matches(got, exp, fmt):
+    if isinstance(exp, tuple):
+        width = {'d': 64, 'f': 32, 'l': 80}[fmt]
+        return is_nan_str(got, fmt) and bool(int(got, 16) >> (width - 1)) == exp[1]
+    return got == exp
 
 
 def current_line(text, pos):
@@ -291,13 +417,12 @@ def seq_print(rng):
     rows, cols = rng.choice([0, 1, 2, 3, 5]), rng.choice([0, 1, 1, 2, 3])
     sep = rng.choice([',', ';', ', ', ' ', '\t']) if fmt == 'csvs' else ','
     bits = [rnd_bits(rng) for _ in range(rows * cols)]
-    toks = ['nan' if bits2f(b) != bits2f(b) else tok_of_bits(b) for b in bits]      # NaN crosses as std::nan("")
+    toks = [tok_of_bits(b) for b in bits]
     return [f'pcsv {fmt} {rows} {cols} {hx(sep)} ' + ' '.join([hbits(b) for b in bits] + [hx(t) for t in toks])]
 
 
 def rt_line(bits, rows, cols, sep):
-    # NaN bit patterns cross as 'nan' (harness: std::nan("")), so the token is the positive NaN's
-    toks = ['nan' if bits2f(b) != bits2f(b) else tok_of_bits(b) for b in bits]
+    toks = [tok_of_bits(b) for b in bits]
     return f'rt {hx(sep)} {rows} {cols} ' + ' '.join([hbits(b) for b in bits] + [hx(t) for t in toks])
 
 
@@ -360,8 +485,46 @@ def gen_ops(rng, n):
             ['S ' + hx('# c\n' + '#' + 'x' * 300 + '\n1,+2,-3\nfoobar'), 'row 3 2c', 'resync?', 'rowv 2c'],
             ['S -', 'rowv 2c', 'row 0 2c', 'row 1 2c'],
             ['S ' + hx('\n\n1\n'), 'rowv 2c', 'row 0 2c', 'row 1 2c']]
-    head += corpus_empty_fields() + corpus_after_error()
+    head += corpus_empty_fields() + corpus_after_error() + corpus_value_classes() + corpus_tokens()
     return [o for s in head + seqs for o in s]
+
+
+CLASS_REPS = [0, 1 << 63, 1, (1 << 63) | 0x000fffffffffffff, 0x3ff8000000000000, 0xc00921fb54442d18,
+              0x7ff0000000000000, 0xfff0000000000000, QNAN, QNAN | 1 << 63, QNAN | 0x123, (QNAN | 1 << 63) | 0x7,
+              0x7ff0000000000001, 0xfff4000000000000, 0x7fefffffffffffff, 0x0010000000000000]
+
+
+def corpus_value_classes():
+    """One representative of every class of the property's quantifier (REQUIRED_CLASSES) through print -> read,
+    as a vector and as a matrix, and through every printer format."""
+    assert {value_class(b) for b in CLASS_REPS} >= set(REQUIRED_CLASSES)
+    n = len(CLASS_REPS)
+    out = [[rt_line(CLASS_REPS, n, 1, ',')], [rt_line(CLASS_REPS, 4, 4, ';')]]
+    for fmt in ('csv', 'csvs', 'py', 'ml'):
+        for rows, cols in ((n, 1), (4, 4), (1, 3), (0, 1), (0, 3), (2, 0)):
+            bits = CLASS_REPS[:rows * cols]
+            out.append([f'pcsv {fmt} {rows} {cols} {hx("; " if fmt == "csvs" else ",")} ' +
+                        ' '.join([hbits(b) for b in bits] + [hx(tok_of_bits(b)) for b in bits])])
+    return out
+
+
+TOKEN_ZOO = ['+-3', '+-inf', '+-nan', '+-.5', '+ 3', '0x10', '1e', '1e+', '1e5', '.5', '5.', 'inf', '-inf', '+inf', 'nan',
+             '-nan', '+nan', 'NaN', 'NAN', 'infinity', 'INFINITY', '-Infinity', 'infinit', 'nan(12)', 'nan()', 'nan(',
+             '1_000', ' 3', '3 ', '\t3', '3\r', '+', '-', '++3', '--3', '-+3', '+.5', '-.5', '.', 'e5', '1e5.', '1.5E5',
+             '0b1', '1d5', '0x1p3', "1'000", '1e400', '1e-400', '-0', '+0', '00', '1e+05', '1e-05', '1.e5', '.e5']
+
+
+def corpus_tokens():
+    """Audit 2 item 3: what the reader does with each token of the zoo (alone on a line, and as the middle
+    field), both readers; CRLF line ends."""
+    out = []
+    for t in TOKEN_ZOO:
+        out.append(['S ' + hx(t + '\n7\n'), 'rowv 3b', 'rowv 3b'])
+        out.append(['S ' + hx(t + '\n7\n'), 'row 1 3b', 'row 1 3b'])
+        out.append(['S ' + hx('1;' + t + ';2\n7\n'), 'row 3 3b', 'rowv 3b'])
+    out.append(['S ' + hx('1;2\r\n3;4\r\n'), 'row 2 3b', 'row 2 3b'])
+    out.append(['S ' + hx('1;2\r\n3;4\r\n'), 'rowv 3b', 'rowv 3b'])
+    return out
 
 
 def corpus_empty_fields():
@@ -432,39 +595,45 @@ def next_line_start(text, pos):
     return le + 1 if has_nl else len(text)
 
 
-def judge_row(op, res, st, pos=None):
-    """The property restated on one row read from a clean line start (`pos`: where the property says the
-    stream is — the start of the line after a rejected row — when that differs from where it really is)."""
-    text = st['text']
-    pos = st['pos'] if pos is None else pos
-    parts = op.split()
-    vec = parts[0] == 'rowv'
-    sep = unhx(parts[-1])
-    n = None if vec else int(parts[1])
+LDSUB = 'csv-longdouble-subnormal-rejected'
+
+
+def plusminus_only(fields):
+    """Every field is in the strict grammar, or is '+' followed by a strict token that starts with '-'."""
+    hit = False
+    for f in fields:
+        if STRICT.fullmatch(f):
+            continue
+        if f.startswith('+-') and STRICT.fullmatch(f[1:]):
+            hit = True
+            continue
+        return False
+    return hit
+
+
+def judge(text, pos, vec, n, sep, res, fmt='d'):
+    """The property restated on one row call (scalar format fmt) made at the clean line start `pos` of `text`:
+    strict grammar, exact values, stream position.  Independent of the reader (see STRICT, round_decimal)."""
     line, ls, le, has_nl = current_line(text, pos)
     fields = [] if line == '' else line.split(sep)
     if len(fields) > 1 and fields[-1] == '':
-        fields = fields[:-1]                 # trailing separator: accepted by design (unit tests)
-    gram = all(NUMRE.fullmatch(f) for f in fields)
+        fields = fields[:-1]                 # a separator terminates a field (read_row_terminated, unit tests)
+    gram = all(STRICT.fullmatch(f) for f in fields)
     seg = res.split(' | ')
     ok = seg[0].startswith('ok')
     p2, e2, f2 = parse_state(seg[-1])
-    here = f'row {line[:80]!r} (sep {sep!r}, {"vector" if vec else f"n={n}"})'
+    here = f'row {line[:80]!r} (sep {sep!r}, {"vector" if vec else f"n={n}"}, {fmt})'
     if not ok and not seg[0].startswith('E_'):
         return f'unexpected output {seg[0][:60]!r}'
+    want = le + 1 if has_nl else len(text)
     if not ok:
         if seg[0] in ('E_other', 'E_read'):
             return f'{here}: not a csv read_error: {seg[0]}'
-        if p2 > (le + 1 if has_nl else len(text)):
-            return f'{here}: rejected, but the stream was consumed past the end of that line (pos {p2} > {le})'
-    finding = None
-    if not ok:
-        want = le + 1 if has_nl else len(text)
         if p2 != want or f2:
-            where = 'inside the rejected line' if p2 <= le else 'elsewhere'
-            finding = (f'{here}: rejected with {seg[0]}, but the stream is left {where} (pos {p2}, failbit '
-                       f'{int(f2)}; the next row starts at {want}): the next read_row call does not read '
-                       f'the next row', MIDLINE)
+            where = 'inside the rejected line' if p2 <= le else 'past the end of that line'
+            return (f'{here}: rejected with {seg[0]}, but the stream is left {where} (pos {p2}, failbit '
+                    f'{int(f2)}; the next row starts at {want}): the next read_row call does not read '
+                    f'the next row', MIDLINE)
     maxlen = max([len(f) for f in fields] + [0])
     vals = seg[0].split()[2:] if ok else None
     if ok and maxlen > WINDOW:
@@ -472,27 +641,44 @@ def judge_row(op, res, st, pos=None):
                 f'not rejected: returned {len(vals)} numbers', 'csv-overlong-token-split')
     count_ok = vec or n == len(fields)
     if gram and count_ok:
-        exp = [tok_value(f) for f in fields]
-        in_range = all(r for _, r in exp)
+        exp = [tok_value(f, fmt) for f in fields]
+        in_range = all(r for _, r, _ in exp)
+        if not in_range:
+            count('exempt', 'value_out_of_range: accepted (correctly rounded) or rejected')
+        if maxlen == WINDOW:
+            count('exempt', 'token_of_exactly_64_chars: hypothesis hlen <= 63 of read_token_any_offset')
         if maxlen <= WINDOW - 1 and in_range:
             if not ok:
                 if line == '' and text[pos:pos + 1] == '#' and seg[0] == 'E_ext':
                     return (f'{here}: an empty row that follows a comment line is rejected with {seg[0]} '
                             f'(and failbit is set); the same row without the comment is accepted',
                             'csv-empty-row-after-comment')
+                if fmt == 'l' and seg[0] == 'E_conv' and any(sub for _, _, sub in exp):
+                    return (f'{here}: a row with a long double value below LDBL_MIN is rejected with {seg[0]}', LDSUB)
                 return f'{here}: valid row rejected with {seg[0]}'
         if ok:
-            if vals != [b for b, _ in exp]:
-                return f'{here}: returned {vals[:6]}, the text denotes {[b for b, _ in exp][:6]}'
-            want = le + 1 if has_nl else len(text)
+            if len(vals) != len(exp) or not all(value_matches(g, e, fmt) for g, (e, _, _) in zip(vals, exp)):
+                return f'{here}: returned {vals[:6]}, the text denotes {[e for e, _, _ in exp][:6]}'
             if p2 != want:
                 return f'{here}: accepted, but the stream is at {p2}, next line starts at {want}'
-        return finding
+        return None
     # malformed (bad token / empty field / wrong count / over-long)
     if ok:
+        if (vec or n == len(fields)) and plusminus_only(fields):
+            return (f'{here}: a token that starts with "+-" is not a number, but the row is accepted and the '
+                    f'token read as the negative value: returned {vals[:6]}', PLUSMINUS)
         why = 'field count' if gram else 'bad token / empty field / wrong separator'
         return f'{here}: malformed ({why}) but returned numbers {vals[:6]}'
-    return finding
+    return None
+
+
+def judge_row(op, res, st, pos=None):
+    """`judge` for the `row` / `rowv` ops of the main run (`pos`: where the property says the stream is — the
+    start of the line after a rejected row — when that differs from where it really is)."""
+    parts = op.split()
+    vec = parts[0] == 'rowv'
+    return judge(st['text'], st['pos'] if pos is None else pos, vec, None if vec else int(parts[1]),
+                 unhx(parts[-1]), res)
 
 
 def monitor(op, out, st):
@@ -519,8 +705,8 @@ def monitor(op, out, st):
             judged_from = st['expect']
             r = judge_row(op, out, st, pos=judged_from)
             if r is not None:
-                msg = r[0] if isinstance(r, tuple) else r
-                r = ('after a rejected row, the next call: ' + msg, MIDLINE)
+                pre = 'after a rejected row, the next call: '
+                r = (pre + r[0], r[1]) if isinstance(r, tuple) else pre + r
         p2, e2, f2 = parse_state(seg[-1])
         okk = seg[0].startswith('ok')
         st['clean'] = okk
@@ -544,11 +730,17 @@ def monitor(op, out, st):
         parts = op.split()
         sep = unhx(parts[1])
         rows, cols = int(parts[2]), int(parts[3])
-        bits = parts[4:4 + rows * cols]
+        bits = [int(b, 16) for b in parts[4:4 + rows * cols]]
+        for b in bits:
+            count('rt_classes', value_class(b))
         seg = out.split(' | ')
         text = unhx(seg[0])
         nrows, ncols = (1, rows) if cols == 1 else (rows, cols)
-        want = [bits[r * ncols:(r + 1) * ncols] for r in range(nrows)] if cols != 1 else [bits]
+        exp_text = expected_print('csvs', rows, cols, sep, bits)
+        if text != exp_text:
+            return f'print_csv wrote {text[:120]!r}, the format says {exp_text[:120]!r}'
+        # the property for print -> read: bit-identical, the sign of zero included; NaN: sign only (canon_bits)
+        want = [[hbits(canon_bits(b)) for b in bits[r * ncols:(r + 1) * ncols]] for r in range(nrows)]
         i = 1
         for ps in range(2):
             for r in range(nrows):
@@ -565,7 +757,88 @@ def monitor(op, out, st):
             if p2 != len(text):
                 return f'round trip: {p2} of {len(text)} characters consumed'
         return None
+    if k == 'pcsv':
+        parts = op.split()
+        fmt, rows, cols, sep = parts[1], int(parts[2]), int(parts[3]), unhx(parts[4])
+        bits = [int(b, 16) for b in parts[5:5 + rows * cols]]
+        text = unhx(out.strip())
+        shape = 'empty' if rows * cols == 0 else ('vector' if cols == 1 else 'matrix')
+        count('pcsv', f'{fmt}:{shape}')
+        exp_text = expected_print(fmt, rows, cols, sep, bits)
+        if text != exp_text:
+            return f'print ({fmt}, {rows}x{cols}) wrote {text[:120]!r}, the format says {exp_text[:120]!r}'
+        # read the text back with a reader that shares nothing with the library: the format's own grammar
+        try:
+            back = parse_printed(fmt, text, sep)
+        except Exception as e:
+            return f'print ({fmt}, {rows}x{cols}) wrote {text[:120]!r}, which is not valid {fmt} text: {e!r}'
+        want = [hbits(canon_bits(b)) for b in bits]
+        if cols == 1 or rows * cols == 0:
+            flat = [x for r in back for x in r] if back and isinstance(back[0], list) else list(back)
+        else:
+            if [len(r) for r in back] != [cols] * rows:
+                return f'print ({fmt}): {rows}x{cols} matrix printed with row lengths {[len(r) for r in back]}'
+            flat = [x for r in back for x in r]
+        if flat != want:
+            bad = [(a, b) for a, b in zip(want, flat) if a != b][:3]
+            return (f'print ({fmt}, {rows}x{cols}): the text {text[:100]!r} denotes other values than were printed: '
+                    f'wrote/denoted {bad or (len(want), len(flat))}')
+        return None
     return None
+
+
+def expected_print(fmt, rows, cols, sep, bits):
+    """Text of a rows×cols matrix in the given format: elements in scientific notation with max_digits10
+    significant digits, '+' for non-negative non-NaN (tok_of_bits = printf '%+.17e'); csv: one line per row,
+    a column vector on one line; python: nested list literal; matlab: `[a b;\n c d];`."""
+    t = [tok_of_bits(b) for b in bits]
+    R = [t[r * cols:(r + 1) * cols] for r in range(rows)]
+    if fmt in ('csv', 'csvs'):
+        sp = ',' if fmt == 'csv' else sep
+        if cols == 1:
+            return sp.join(t) + '\n'
+        return ''.join(sp.join(r) + '\n' for r in R)
+    if fmt == 'py':
+        if cols == 1:
+            return '[' + ', '.join(t) + ']\n'
+        return '[[' + '],\n ['.join(', '.join(r) for r in R) + ']]\n'
+    if fmt == 'ml':
+        if cols == 1:
+            return '[' + ' '.join(t) + '];\n'
+        return '[' + ';\n '.join(' '.join(r) for r in R) + '];\n'
+    raise ValueError(fmt)
+
+
+def parse_printed(fmt, text, sep):
+    """Independent reader of the three formats -> (nested) lists of bit-pattern strings."""
+    def val(tok):
+        if not STRICT.fullmatch(tok):
+            raise ValueError(f'token {tok!r}')
+        e, in_range, _ = tok_value(tok, 'd')
+        if not in_range or isinstance(e, tuple):
+            raise ValueError(f'token {tok!r} out of range')
+        return e
+    if fmt in ('csv', 'csvs'):
+        sp = ',' if fmt == 'csv' else sep
+        if not text.endswith('\n') and text != '':
+            raise ValueError('no final newline')
+        return [[val(x) for x in ln.split(sp)] if ln else [] for ln in text.split('\n')[:-1]]
+    if fmt == 'py':
+        # a Python literal: evaluate it with Python itself (nan / inf as names, unary signs)
+        if not text.endswith('\n'):
+            raise ValueError('no final newline')
+        obj = eval(text, {'__builtins__': {}}, {'nan': math.nan, 'inf': math.inf})
+        def conv(o):
+            return [conv(x) for x in o] if isinstance(o, list) else '%016x' % f2bits(o)
+        return conv(obj)
+    if fmt == 'ml':
+        if not (text.startswith('[') and text.endswith('];\n')):
+            raise ValueError('brackets')
+        body = text[1:-3]
+        if body == '':
+            return []
+        return [[val(x) for x in r.split()] for r in body.split(';\n')]
+    raise ValueError(fmt)
 
 
 def nontrivial(op, out):
@@ -590,7 +863,8 @@ def extra_stage(rep, broken, exe, tier):
     lines, meta = [], []
     for _ in range(reps):
         vals = [(rng.getrandbits(1) << 31) | (e << 23) | rng.getrandbits(23) for e in range(0, 255)]
-        vals += [0, 1 << 31, 0x7f800000, 0xff800000, 0x7fc00000, 1, 0x007fffff, 0x00800000, 0x7f7fffff]
+        vals += [0, 1 << 31, 0x7f800000, 0xff800000, 0x7fc00000, 0xffc00000, 0x7fc00123, 0xff800001, 0x7fa00000,
+                 0xffffffff, 1, 0x80000001, 0x007fffff, 0x00800000, 0x7f7fffff, 0xff7fffff]
         vals += [(rng.getrandbits(1) << 31) | rng.getrandbits(23) for _ in range(32)]
         for i in range(0, len(vals), 8):
             ch = vals[i:i + 8]
@@ -601,7 +875,9 @@ def extra_stage(rep, broken, exe, tier):
         exps = list(range(1, 0x7fff, 257 if tier != 'thorough' else 17)) + [1, 2, 0x3fff, 0x7ffe]
         for e in exps:
             lv.append(((rng.getrandbits(1) << 15) | e, (1 << 63) | rng.getrandbits(63)))
-        lv += [(0, 0), (0x8000, 0), (0x7fff, 1 << 63), (0xffff, 1 << 63), (0x7fff, 3 << 62)]
+        lv += [(0, 0), (0x8000, 0), (0x7fff, 1 << 63), (0xffff, 1 << 63), (0x7fff, 3 << 62), (0xffff, 3 << 62),
+               (0x7fff, (3 << 62) | 0x123), (0xffff, (1 << 63) | 1), (0x7fff, (1 << 64) - 1),
+               (0x7ffe, (1 << 64) - 1), (0xfffe, (1 << 64) - 1), (1, 1 << 63), (0x8001, 1 << 63)]
         lv += [((rng.getrandbits(1) << 15), rng.getrandbits(63) | 1) for _ in range(24)]     # subnormals
         lv += [(0, 1), (0, (1 << 63) - 1)]
         for i in range(0, len(lv), 4):
@@ -619,13 +895,18 @@ def extra_stage(rep, broken, exe, tier):
     for ln, (kind, ch), o in zip(lines, meta, out):
         seg = o.split(' | ')
         text = unhx(seg[0].split()[0])
+        # NaN: the sign and nothing else survives (the printers write `nan` / `-nan`)
         if kind == 'f':
-            want = ['nan' if ((v >> 23) & 0xff) == 0xff and (v & 0x7fffff) else '%08x' % v for v in ch]
+            want = ['%08x' % ((v & 0x80000000) | 0x7fc00000) if ((v >> 23) & 0xff) == 0xff and (v & 0x7fffff)
+                    else '%08x' % v for v in ch]
             stats['float_values'] += len(ch)
+            stats['float_nan'] = stats.get('float_nan', 0) + sum(w[1:] == 'fc00000' for w in want)
         else:
-            want = ['nan' if (se & 0x7fff) == 0x7fff and (m << 1) & ((1 << 64) - 1) else '%04x%016x' % (se, m)
+            want = ['%04x%016x' % ((se & 0x8000) | 0x7fff, 3 << 62)
+                    if (se & 0x7fff) == 0x7fff and (m << 1) & ((1 << 64) - 1) else '%04x%016x' % (se, m)
                     for se, m in ch]
             stats['longdouble_values'] += len(ch)
+            stats['longdouble_nan'] = stats.get('longdouble_nan', 0) + sum(w[1:4] == 'fff' and w[4] == 'c' for w in want)
         msg = key = None
         if not seg[0].endswith('same'):
             msg = f'print_csv and float_to_str disagree at default precision: {text!r}'
@@ -651,6 +932,243 @@ def extra_stage(rep, broken, exe, tier):
                     break
     rep.cov['float_longdouble_roundtrip'] = stats
     scalar_type_stage(rep, exe)
+    printer_stage(rep, exe, tier, rng)
+    corruption_stage(rep, exe, tier, rng)
+    coverage_stage(rep, broken)
+
+
+# ---------------------------------------------------------------- printers: extreme values, precision overrides
+
+MAXDIG = {'d': 17, 'f': 9, 'l': 21}          # numeric_limits<F>::max_digits10
+EXPDIG = {'d': 3, 'f': 2, 'l': 4}            # digits of the largest decimal exponent
+PRECBUF = 'print-precision-overflows-buffer'
+
+
+def longest_token(fmt, prec=None):
+    """sign, digit, point, `prec` digits, 'e', exponent sign, exponent digits"""
+    return 3 + (MAXDIG[fmt] if prec is None else prec) + 2 + EXPDIG[fmt]
+
+
+def fmt_bits(fmt, b):
+    return {'d': '%016x', 'f': '%08x'}[fmt] % b if fmt != 'l' else '%04x%016x' % b
+
+
+def as_double(fmt, b):
+    """The value of a float / double bit pattern as a Python float (exact)."""
+    return bits2f(b) if fmt == 'd' else struct.unpack('>f', struct.pack('>I', b))[0]
+
+
+def extreme_values(fmt, rng, k):
+    if fmt == 'd':
+        ex = [0x7fefffffffffffff, 0xffefffffffffffff, 0x0010000000000000, 1, 0x8000000000000001, 0x000fffffffffffff,
+              0, 1 << 63, 0x7ff0000000000000, 0xfff0000000000000, QNAN, QNAN | 1 << 63, 0x7ff0000000000001,
+              f2bits(1e100), f2bits(-9.999999999999999e99), f2bits(1e-99), f2bits(-9.99e-100), f2bits(1.0)]
+        return ex + [rng.getrandbits(64) for _ in range(k)]
+    if fmt == 'f':
+        ex = [0x7f7fffff, 0xff7fffff, 0x00800000, 1, 0x80000001, 0x007fffff, 0, 1 << 31, 0x7f800000, 0xff800000,
+              0x7fc00000, 0xffc00000, 0x7f800001, 0x3f800000]
+        return ex + [rng.getrandbits(32) for _ in range(k)]
+    ex = [(0x7ffe, (1 << 64) - 1), (0xfffe, (1 << 64) - 1), (1, 1 << 63), (0, 1), (0x8000, 1), (0, (1 << 63) - 1),
+          (0, 0), (0x8000, 0), (0x7fff, 1 << 63), (0xffff, 1 << 63), (0x7fff, 3 << 62), (0xffff, 3 << 62),
+          (0x3fff, 1 << 63)]
+    return ex + [((rng.getrandbits(1) << 15) | rng.randint(1, 0x7ffe), (1 << 63) | rng.getrandbits(63)) for _ in range(k)]
+
+
+def expected_after_read(fmt, b):
+    """canon_bits for the three formats, as bit-pattern strings"""
+    if fmt == 'd':
+        return hbits(canon_bits(b))
+    if fmt == 'f':
+        return '%08x' % ((b & 0x80000000) | 0x7fc00000 if (b >> 23) & 0xff == 0xff and b & 0x7fffff else b)
+    se, m = b
+    if se & 0x7fff == 0x7fff and (m << 1) & ((1 << 64) - 1):
+        return '%04x%016x' % ((se & 0x8000) | 0x7fff, 3 << 62)
+    return '%04x%016x' % b
+
+
+def printer_stage(rep, exe, tier, rng):
+    """float_to_str<F> for double / float / long double: (a) default precision on the extreme values of each
+    type (largest, smallest normal, smallest / largest subnormal, +/-0, +/-inf, +/-NaN, three-digit exponents)
+    and random patterns: the token is in the strict grammar, no longer than the longest token of the type
+    (which is below every printer buffer, `printer_buffers_fit`), equals printf's `%+.{max_digits10}e` (double,
+    float) and denotes the printed value exactly (all three); (b) the precision argument of the public
+    float_to_str(value, precision): every precision from 0 to 80 (and negative ones) against printf."""
+    k = 400 if tier == 'thorough' else 40
+    lines, meta = [], []
+    for fmt in 'dfl':
+        for b in extreme_values(fmt, rng, k):
+            lines.append(f'fts {fmt} -999 {fmt_bits(fmt, b)}')
+            meta.append((fmt, b, None))
+    precs = list(range(0, 81)) + [100, 1000, -1, -7]
+    for fmt in 'dfl':
+        vals = extreme_values(fmt, rng, 0)[:5] + extreme_values(fmt, rng, 2)[-2:]
+        for b in vals:
+            for pr in precs:
+                lines.append(f'fts {fmt} {pr} {fmt_bits(fmt, b)}')
+                meta.append((fmt, b, pr))
+    out, rc, err = C.run_lines(exe, lines)
+    rep.cov['evaluations'] += len(out)
+    if rc != 0 or len(out) != len(lines):
+        rep.violation(f'real code crashed in the printer stage (rc={rc}): {err[-200:]}',
+                      {'op': lines[len(out)] if len(out) < len(lines) else None}, True)
+        return
+    stats = {'default_precision_tokens': 0, 'longest_default_token': {}, 'precision_override_tokens': 0,
+             'precision_does_not_fit_buffer': 0}
+    nviol = 0
+    for ln, (fmt, b, pr), o in zip(lines, meta, out):
+        msg = key = None
+        if o.startswith('exception'):
+            if pr is not None and longest_token(fmt, pr if pr >= 0 else 6) > 56 and 'does not fit' in o:
+                stats['precision_does_not_fit_buffer'] += 1       # repaired printer: refuses loudly
+                continue
+            msg = f'float_to_str: {o[:120]}'
+        else:
+            try:
+                tok = unhx(o)
+            except Exception:
+                tok = None
+            p_eff = MAXDIG[fmt] if pr is None else (6 if pr < 0 else pr)
+            finite = STRICT.fullmatch(tok) is not None and STRICT.fullmatch(tok).group(5) is not None if tok else False
+            if fmt in 'df':
+                x = as_double(fmt, b)
+                ref = ('-nan' if (b >> (63 if fmt == 'd' else 31)) else 'nan') if x != x else \
+                      ('+inf' if x > 0 else '-inf') if math.isinf(x) else '%+.*e' % (p_eff, x)
+            else:
+                ref = None
+            if pr is None:
+                stats['default_precision_tokens'] += 1
+                if tok is not None:
+                    stats['longest_default_token'][fmt] = max(stats['longest_default_token'].get(fmt, 0), len(tok))
+                if tok is None or not STRICT.fullmatch(tok):
+                    msg = f'float_to_str<{fmt}> of {fmt_bits(fmt, b)} at default precision wrote {o[:80]!r}: not a number token'
+                elif len(tok) > longest_token(fmt):
+                    msg = f'float_to_str<{fmt}>: token {tok!r} longer than {longest_token(fmt)} characters'
+                elif ref is not None and tok != ref:
+                    msg = f'float_to_str<{fmt}> of {fmt_bits(fmt, b)} wrote {tok!r}, printf says {ref!r}'
+                else:
+                    e, in_range, _ = tok_value(tok, fmt)
+                    if not in_range or not value_matches(expected_after_read(fmt, b), e, fmt) \
+                            or (not isinstance(e, tuple) and e != expected_after_read(fmt, b)):
+                        msg = (f'float_to_str<{fmt}> of {fmt_bits(fmt, b)} wrote {tok!r}, which denotes {e} '
+                               f'(max_digits10 digits must identify the value)')
+            else:
+                stats['precision_override_tokens'] += 1
+                good = tok is not None and STRICT.fullmatch(tok) and (ref is None or tok == ref) and \
+                    (not finite or len(tok) <= longest_token(fmt, p_eff))
+                if not good:
+                    if longest_token(fmt, p_eff) > 64 or (tok is not None and len(tok) == 64 and not STRICT.fullmatch(tok)):
+                        stats['precision_does_not_fit_buffer'] += 1
+                        msg = (f'float_to_str<{fmt}>(value, precision = {pr}): the {longest_token(fmt, p_eff)}-character '
+                               f'result does not fit the 64-byte buffer, the error of std::to_chars is ignored and '
+                               f'64 bytes of the uninitialised buffer are returned as the number')
+                        key = PRECBUF
+                    else:
+                        msg = f'float_to_str<{fmt}>({fmt_bits(fmt, b)}, {pr}) wrote {o[:80]!r}, printf says {ref!r}'
+        if msg:
+            before = len(rep.violations)
+            rep.violation('monitor: ' + msg, {'op': ln, 'impl_out': o}, True, key=key)
+            if len(rep.violations) > before:
+                nviol += 1
+                if nviol >= 5:
+                    break
+    rep.cov['printer_stage'] = stats
+
+
+# ---------------------------------------------------------------- exhaustive single-character corruptions
+
+CORRUPT_ALL = list('0123456789.eE+-xnaifNIty#()_ ,;\t|:\n\r')
+
+
+def corruptions(line):
+    """Every single-character replacement, insertion and deletion of `line` over CORRUPT_ALL."""
+    seen = set()
+    for p in range(len(line) + 1):
+        for ch in CORRUPT_ALL:
+            for c in ((line[:p] + ch + line[p + 1:]) if p < len(line) else None, line[:p] + ch + line[p:]):
+                if c is not None and c != line and c not in seen:
+                    seen.add(c)
+                    yield c
+        if p < len(line):
+            c = line[:p] + line[p + 1:]
+            if c not in seen:
+                seen.add(c)
+                yield c
+
+
+def corruption_stage(rep, exe, tier, rng):
+    """The property's quantifier "all single-character corruptions of valid rows": rows printed by the library's
+    own printer (float_to_str at default precision) for double, float and long double; every replacement /
+    insertion / deletion over CORRUPT_ALL at every position; read with read_row(n) (n = the number of fields
+    printed) and read_row_std_vector of the same scalar type; judged by `judge` (strict grammar, exact values in
+    the format of the scalar type, stream position)."""
+    nrows = 5 if tier == 'thorough' else 1
+    stats = {'rows': 0, 'texts': 0, 'calls': 0, 'accepted': 0, 'rejected': 0}
+    nviol = 0
+    for fmt in 'dfl':
+        for _ in range(nrows):
+            # a valid printed row: a negative normal, a special (inf / nan / zero) or positive normal, a third
+            ev = extreme_values(fmt, rng, 6)
+            pool = [v for v in ev if not (fmt == 'l' and (v[0] & 0x7fff) == 0)]     # LDSUB: open finding
+            if fmt == 'l':
+                count('exempt', 'long_double_subnormals_not_in_corruption_rows: open finding ' + LDSUB)
+            vals = [rng.choice(pool[-6:]), rng.choice(pool[:-6]), rng.choice(pool)]
+            rng.shuffle(vals)
+            out, rc, err = C.run_lines(exe, [f'fts {fmt} -999 {fmt_bits(fmt, v)}' for v in vals])
+            if rc != 0 or len(out) != 3 or any(o.startswith('exception') for o in out):
+                rep.violation(f'printer failed in the corruption stage: {out} {err[-100:]}', {}, True)
+                return
+            toks = [unhx(o) for o in out]
+            sep = rng.choice(SEPS)
+            line = sep.join(toks)
+            tail = '\n' + sep.join(['7', '8']) + '\n'
+            texts = [line + tail] + [c + tail for c in corruptions(line)]
+            lines = []
+            for t in texts:
+                lines.append(f'rowX {fmt} 3 {hx(sep)} {hx(t)}')
+                lines.append(f'rowX {fmt} -1 {hx(sep)} {hx(t)}')
+            res, rc, err = C.run_lines(exe, lines)
+            rep.cov['evaluations'] += len(res)
+            if rc != 0 or len(res) != len(lines):
+                rep.violation(f'real code crashed in the corruption stage (rc={rc}): {err[-200:]}',
+                              {'op': lines[len(res)] if len(res) < len(lines) else None}, True)
+                return
+            stats['rows'] += 1
+            stats['texts'] += len(texts)
+            stats['calls'] += len(lines)
+            for i, (ln, o) in enumerate(zip(lines, res)):
+                if o.startswith('exception') or o == 'bad-op':
+                    rep.violation(f'harness: {o[:100]}', {'op': ln}, True)
+                    return
+                stats['accepted' if o.startswith('ok') else 'rejected'] += 1
+                r = judge(texts[i // 2], 0, i % 2 == 1, 3, sep, o, fmt)
+                if i < 2 and (r is not None or not o.startswith('ok')):
+                    r = r or f'the uncorrupted printed row {line!r} is rejected: {o}'
+                if r is not None:
+                    msg, key = r if isinstance(r, tuple) else (r, None)
+                    before = len(rep.violations)
+                    rep.violation('monitor (single-character corruption of a printed row): ' + msg,
+                                  {'op': ln, 'impl_out': o}, True, key=key)
+                    if len(rep.violations) > before:
+                        nviol += 1
+                        if nviol >= 5:
+                            rep.cov['corruption_stage'] = stats
+                            return
+    rep.cov['corruption_stage'] = stats
+
+
+def coverage_stage(rep, broken):
+    """Required coverage: what the property quantifies over must have been exercised in this run."""
+    missing = [c for c in REQUIRED_CLASSES if not COVER['rt_classes'].get(c)]
+    if missing:
+        broken.append(f'required coverage: value classes never sent through print -> read in this run: {missing}')
+    need = [f'{f}:{sh}' for f in ('csv', 'csvs', 'py', 'ml') for sh in ('vector', 'matrix')]
+    missing = [c for c in need if not COVER['pcsv'].get(c)]
+    if missing:
+        broken.append(f'required coverage: printer formats / shapes never exercised in this run: {missing}')
+    rep.cov['required_coverage'] = {'rt_value_classes': dict(sorted(COVER['rt_classes'].items())),
+                                    'printer_shapes': dict(sorted(COVER['pcsv'].items()))}
+    rep.cov['exemptions'] = dict(sorted(COVER['exempt'].items()))
+
 
 
 def scalar_type_stage(rep, exe):
@@ -718,6 +1236,16 @@ if __name__ == '__main__':
             'std::from_chars / std::to_chars are oracles: theorems assume the longest-valid-prefix '
             'contract and parse(print v) = v; exercised (not proved) by the round-trip monitor over '
             'bit patterns for double, float and long double',
+            'print.tpp float_to_str_vw drops the error code of std::to_chars (Gen floatToStrChecksEc, Props '
+            'printer_error_code_current): harmless at default precision because every element buffer (Gen '
+            'printBufSizes, literal sizes required by the translator) holds the longest default-precision token '
+            '(Props printer_buffers_fit; max_digits10 = 21 / 17 / 9 and 4 / 3 / 2 exponent digits are platform '
+            'facts, exercised on LDBL_MAX, LDBL_MIN, denormals, random patterns by the printer stage); not '
+            'harmless for the precision argument of float_to_str (open finding print-precision-overflows-buffer)',
+            'monitor references: strict number grammar = C strtod decimal subject sequence with one optional '
+            'sign; values by exact integer round-to-nearest-even into binary64 / binary32 / x87-80 (validated '
+            'against CPython float() on 200000 tokens); printer formats = printf %+.{max_digits10}e and the '
+            'framings pinned by the library\'s own test-print.cpp; python output evaluated by Python itself',
             'Driver/C17.lean re-implements from_chars<double> (grammar + exact rounding) only for the '
             'correspondence run; no theorem depends on it',
         ],
@@ -743,5 +1271,14 @@ if __name__ == '__main__':
              'resync-on-error and the next rows; (d) random member-function sequences on CSVReader; '
              '(e) printer framing; (f) print→read over all 2047 exponents × random mantissas, subnormals, '
              '±0, ±inf, NaN (double via correspondence; float / long double harness-only); '
-             'distinct = distinct (op, outcome) pairs',
+             '(g) token zoo (+-3, "+ 3", 0x10, 1e, 1e+, .5, 5., inf / nan spellings, nan(n-char-seq), 1_000, blanks, '
+             'CR, double signs …) alone and as middle field, CRLF files; (h) one representative of every value '
+             'class of the quantifier (+/-0, +/-subnormal, +/-normal, +/-inf, +/-qNaN, +/-payload NaN, +/-sNaN) '
+             'through print -> read as vector and matrix and through every printer format and shape (required '
+             'coverage, checked at the end of the run); (i) harness-only: rows printed by float_to_str for double, '
+             'float, long double × every single-character replacement / insertion / deletion over a 40-character '
+             'alphabet × read_row(n) and read_row_std_vector of that type, judged by the strict grammar with '
+             'exact values of that format (quick 1 row per type, thorough 5); (j) float_to_str at default '
+             'precision on the extreme values of each type and at every precision 0..80, 100, 1000, <0 against '
+             'printf; distinct = distinct (op, outcome) pairs',
     ))
